@@ -3,3 +3,21 @@ PAIRS = [
     dict(name="arenas_try_purge", harness="harness/c18_arena.c", enforce="mi_arenas_try_purge", rg=True,
          replace=["mi_arena_try_purge", "_mi_clock_now", "_mi_preloading"] + OPT, label="B", K=6, defs=["-DVC_K=6"], objbits=12, functions=["mi_arenas_try_purge", "mi_arena_purge_delay"], timeout=300),
 ]
+HS = "harness/seg_purge.c"
+STUBS = ["_mi_os_purge", "_mi_os_commit", "_mi_clock_now", "_mi_preloading"] + OPT
+# Only the segment header is an object (a 4 MiB object exhausts the solver); pointers into the page area are compared
+# with `p >= segment + segsize` in the real code, which CBMC's pointer check flags as leaving the object although the real
+# mapping is MI_SEGMENT_SIZE bytes.  A failed built-in check blocks every later obligation, so pointer checks are off for the
+# segment-range pairs; array bounds, overflow, shift and division checks stay on.
+NOPTR = ["--no-pointer-check"]
+PAIRS += [
+    dict(name="seg_schedule_purge", harness=HS, entry="h_schedule_purge", enforce="mi_segment_schedule_purge", config="SCALED", label="PC",
+         replace=["mi_segment_purge/c_seg_purge_rec", "mi_segment_try_purge/c_seg_try_purge_rec"] + STUBS,
+         functions=["mi_segment_schedule_purge", "mi_segment_commit_mask", "mi_commit_mask_create", "mi_commit_mask_set", "mi_commit_mask_create_intersect"], timeout=600, cbmc_flags=NOPTR),
+    dict(name="mask_next_run", harness=HS, entry="h_next_run", enforce="_mi_commit_mask_next_run", config="SCALED", label="PC",
+         unwind=66, functions=["_mi_commit_mask_next_run"], timeout=600),
+    dict(name="seg_try_purge", harness=HS, entry="h_try_purge", enforce="mi_segment_try_purge", config="SCALED", label="P",
+         replace=["mi_segment_purge/c_seg_purge_rec", "_mi_commit_mask_next_run/c_next_run_use"] + STUBS,
+         loops="loops/seg_try_purge.json", need_ids=["loop_invariant_step"],
+         functions=["mi_segment_try_purge", "_mi_commit_mask_next_run"], timeout=900, cbmc_flags=NOPTR),
+]
